@@ -189,7 +189,7 @@ func (f *c15File) text(perm func(n int) []int) string {
 }
 
 var c15BenchNames = []string{"Encode", "Decode", "Sort/size=1", "Sort/size=10", "Sort/size=100", "Hash/size=1/align=0", "Hash/size=1/align=1", "Hash/size=10/align=0", "Walk", "Fib-8", "Fib-16", "Sort/size=1-8"}
-var c15Units = []string{"ns/op", "B/op", "allocs/op", "MB/s", "widgets", "ns/frob"}
+var c15Units = []string{"ns/op", "B/op", "allocs/op", "MB/s", "widgets", "ns/frob", "ns/MB", "sec/MB", "MB/ns", "B/ns", "sec/op", "B/s"}
 
 func c15GenFiles(T *sim.Tape) []*c15File {
 	nf := 1 + T.Intn(3, "nfiles")
